@@ -9,16 +9,16 @@
 /// Check for `assertion`: "assertion failed: OFFSET.load(Relaxed) == want_offset"
 
 #[test]
-fn kani_concrete_playback_c05_p_two_way_on_wire_formulas_11238664395287431845() {
+fn kani_concrete_playback_c05_p_two_way_on_wire_formulas_13357800676279066213() {
     let concrete_vals: Vec<Vec<u8>> = vec![
-        // 2305843009213693952ul
-        vec![0, 0, 0, 0, 0, 0, 0, 32],
-        // 7076530729114400382
-        vec![126, 246, 255, 126, 52, 227, 52, 98],
-        // -8150117416748318627
-        vec![93, 0, 254, 0, 100, 247, 228, 142],
-        // 5332261958806667268
-        vec![4, 0, 0, 0, 0, 0, 0, 74],
+        // 8070450532247928831ul
+        vec![255, 255, 255, 255, 255, 255, 255, 111],
+        // 1152921504606846975
+        vec![255, 255, 255, 255, 255, 255, 255, 15],
+        // -9214364837600034816
+        vec![0, 0, 0, 0, 0, 0, 32, 128],
+        // 1152921504875282433
+        vec![1, 0, 0, 16, 0, 0, 0, 16],
         // -1
         vec![255],
         // -1
@@ -28,63 +28,12 @@ fn kani_concrete_playback_c05_p_two_way_on_wire_formulas_11238664395287431845() 
 }
 
 /* native run output:
-rs:213:34
-    |
-213 |                       assert!(m >= $lo && m <= $hi);
-    |  __________________________________^
-214 | |                     assert!(sn.mask as u16 == m - $sub);
-215 | |                     assert!(sn.addr == $want);
-216 | |                 }
-217 | |                 Err(_) => { assert!(m < $lo || m > $hi) }
-    | |_______________________________________^
-...
-224 |   from_str_harness!(c31_tb_from_str_v4, "10.1.2.3", 0, 32, 0, IpAddr::V4(Ipv4Addr::new(10, 1, 2, 3)));
-    |   --------------------------------------------------------------------------------------------------- in this macro invocation
-    |
-    = note: this warning originates in the macro `from_str_harness` (in Nightly builds, run with -Z macro-backtrace for more info)
+error: unexpected argument '--no-assertion-reach-checks' found
 
-warning: comparison is useless due to type limits
-   --> /verif/kani/ntp_proto/ipfilter.rs:213:29
-    |
-213 |                     assert!(m >= $lo && m <= $hi);
-    |                             ^^^^^^^^
-...
-225 | from_str_harness!(c31_tb_from_str_v6, "2001:db8::1", 0, 128, 0, IpAddr::V6(Ipv6Addr::new(0x2001, 0xdb8, 0, 0, 0, 0, 0, 1)));
-    | --------------------------------------------------------------------------------------------------------------------------- in this macro invocation
-    |
-    = note: this warning originates in the macro `from_str_harness` (in Nightly builds, run with -Z macro-backtrace for more info)
+  tip: to pass '--no-assertion-reach-checks' as a value, use '-- --no-assertion-reach-checks'
 
-warning: comparison is useless due to type limits
-   --> /verif/kani/ntp_proto/ipfilter.rs:213:34
-    |
-213 |                       assert!(m >= $lo && m <= $hi);
-    |  __________________________________^
-214 | |                     assert!(sn.mask as u16 == m - $sub);
-215 | |                     assert!(sn.addr == $want);
-216 | |                 }
-217 | |                 Err(_) => { assert!(m < $lo || m > $hi) }
-    | |_______________________________________^
-...
-225 |   from_str_harness!(c31_tb_from_str_v6, "2001:db8::1", 0, 128, 0, IpAddr::V6(Ipv6Addr::new(0x2001, 0xdb8, 0, 0, 0, 0, 0, 1)));
-    |   --------------------------------------------------------------------------------------------------------------------------- in this macro invocation
-    |
-    = note: this warning originates in the macro `from_str_harness` (in Nightly builds, run with -Z macro-backtrace for more info)
+Usage: cargo-kani playback --unstable <UNSTABLE_FEATURE> [-- [TEST_ARGS]...]
 
-   Compiling ntp-proto v2.0.0-alpha.20260715 (/verif/build/xrepo-575f8569/ntp-proto)
-warning: `ntp-proto` (lib) generated 5 warnings
-error[E0428]: the name `replay` is defined multiple times
-   --> /verif/kani/ntp_proto/config.rs:408:1
-    |
-401 | mod replay {
-    | ---------- previous definition of the module `replay` here
-...
-408 | mod replay {
-    | ^^^^^^^^^^ `replay` redefined here
-    |
-    = note: `replay` must be defined only once in the type namespace of this module
-
-For more information about this error, try `rustc --explain E0428`.
-error: could not compile `ntp-proto` (lib test) due to 1 previous error
-error: /root/.kani/kani-0.68.0/toolchain/bin/cargo exited with status exit status: 101
+For more information, try '--help'.
 
 */
